@@ -74,6 +74,44 @@ pub enum HAct {
     /// (0 = empty: handled inside send_error_response; > 0 = State::SendErrorPayload) whose
     /// stream answers Pending `bpend` times before its chunk
     Fail { status: u16, body: usize, bpend: u32 },
+    /// only as the FIRST element of a script: the request carries `Expect: 100-continue` (HTTP/1.1)
+    /// and the EXPECT service answers Pending `pend` times, then accepts (status 0: `100 Continue`,
+    /// the rest of the script is the handler) or rejects with Err(e), `e.into()` = a response with
+    /// this status and a body of `body` bytes (stream Pending `bpend` times); the handler never runs
+    Expect { pend: u32, status: u16, body: usize, bpend: u32 },
+}
+
+/// expect script of request i (None: no `Expect` header)
+pub fn expect_of(c: &Case, i: usize) -> Option<(u32, u16, usize, u32)> {
+    match c.hs.get(i).and_then(|h| h.first()) {
+        Some(HAct::Expect { pend, status, body, bpend }) if c.reqs[i].v11 => Some((*pend, *status, *body, *bpend)),
+        _ => None,
+    }
+}
+/// the expect service rejects request i
+pub fn expect_rejected(c: &Case, i: usize) -> bool {
+    matches!(expect_of(c, i), Some((_, s, _, _)) if s != 0)
+}
+/// Mirror of `AV.H1.ConnExpect.desugar`: ExpectCall{fut} followed by ServiceCall behaves as one
+/// service call whose future first pends `pend` times and then fails (reject) or goes on (accept).
+pub fn eff_hs(c: &Case) -> Vec<Vec<HAct>> {
+    (0..c.hs.len())
+        .map(|i| {
+            let rest: Vec<HAct> = c.hs[i].iter().filter(|a| !matches!(a, HAct::Expect { .. })).cloned().collect();
+            match expect_of(c, i) {
+                None => rest,
+                Some((pend, status, body, bpend)) => {
+                    let mut h = vec![HAct::Pend; pend as usize];
+                    if status == 0 {
+                        h.extend(rest);
+                    } else {
+                        h.push(HAct::Fail { status, body, bpend });
+                    }
+                    h
+                }
+            }
+        })
+        .collect()
 }
 
 #[derive(Serialize, Deserialize, Clone, Debug, PartialEq)]
@@ -123,6 +161,9 @@ pub struct Fixes {
 
 // ------------------------------------------------------------------ rendering to bytes
 pub fn head_bytes(i: usize, r: &Req) -> Vec<u8> {
+    head_bytes_x(i, r, false)
+}
+pub fn head_bytes_x(i: usize, r: &Req, expect: bool) -> Vec<u8> {
     let m = if r.head { "HEAD" } else if r.body == 0 { "GET" } else { "POST" };
     let mut s = format!("{} /r{} HTTP/1.{}\r\n", m, i, if r.v11 { 1 } else { 0 });
     match r.copt {
@@ -135,6 +176,9 @@ pub fn head_bytes(i: usize, r: &Req) -> Vec<u8> {
         2 => s.push_str("transfer-encoding: chunked\r\n"),
         _ => {}
     }
+    if expect {
+        s.push_str("expect: 100-continue\r\n");
+    }
     s.push_str("\r\n");
     s.into_bytes()
 }
@@ -145,6 +189,7 @@ pub const SMUGGLE: &[u8] = b"GET /smuggled HTTP/1.1\r\n\r\n";
 
 struct Render<'a> {
     reqs: &'a [Req],
+    expect: Vec<bool>,
     cur_chunked: bool,
     part_sent: Option<(usize, usize)>,
 }
@@ -152,7 +197,7 @@ impl<'a> Render<'a> {
     fn item(&mut self, it: &Item) -> Vec<u8> {
         match it {
             Item::Req { i } => {
-                let h = head_bytes(*i, &self.reqs[*i]);
+                let h = head_bytes_x(*i, &self.reqs[*i], self.expect.get(*i).copied().unwrap_or(false));
                 self.cur_chunked = self.reqs[*i].body == 2;
                 match self.part_sent.take() {
                     Some((j, k)) if j == *i => h[k..].to_vec(),
@@ -160,7 +205,7 @@ impl<'a> Render<'a> {
                 }
             }
             Item::Part { i } => {
-                let h = head_bytes(*i, &self.reqs[*i]);
+                let h = head_bytes_x(*i, &self.reqs[*i], self.expect.get(*i).copied().unwrap_or(false));
                 let k = h.len() / 2;
                 self.part_sent = Some((*i, k));
                 h[..k].to_vec()
@@ -196,6 +241,8 @@ pub enum LogEv {
     Done { i: usize },
     /// a request whose path is not in the ground truth reached the service
     Alien { path: String },
+    /// the EXPECT service was called with request i (`Expect: 100-continue`)
+    ExpStart { i: usize },
 }
 
 struct PendOnce(bool);
@@ -287,6 +334,7 @@ async fn run_handler(
             HAct::Drop => {
                 payload = None;
             }
+            HAct::Expect { .. } => {}
             HAct::Until { t } => {
                 while (tokio::time::Instant::now() - t0) < Duration::from_millis(t) {
                     PendOnce(false).await;
@@ -436,6 +484,32 @@ pub fn run_case(c: &Case) -> RunOut {
                 }
             }
         });
+        // the EXPECT service (dispatcher state ExpectCall): scripted per request, default = accept
+        let (cx2, log3) = (Rc::new(c.clone()), log.clone());
+        let exp = fn_service(move |req: Request| {
+            let idx = req.path().strip_prefix("/r").and_then(|s| s.parse::<usize>().ok()).filter(|i| *i < cx2.reqs.len());
+            let script = idx.and_then(|i| expect_of(&cx2, i));
+            let log = log3.clone();
+            async move {
+                if let Some(i) = idx {
+                    log.borrow_mut().push(LogEv::ExpStart { i });
+                }
+                match script {
+                    None => Ok(req),
+                    Some((pend, status, body, bpend)) => {
+                        for _ in 0..pend {
+                            PendOnce(false).await;
+                        }
+                        if status == 0 {
+                            Ok(req)
+                        } else {
+                            drop(req);
+                            Err(HErr { status, body, bpend })
+                        }
+                    }
+                }
+            }
+        });
         let ka = match c.cfg.ka {
             -1 => KeepAlive::Os,
             0 => KeepAlive::Disabled,
@@ -445,7 +519,8 @@ pub fn run_case(c: &Case) -> RunOut {
             .keep_alive(ka)
             .client_request_timeout(Duration::from_millis(c.cfg.req_to))
             .client_disconnect_timeout(Duration::from_millis(c.cfg.disc_to))
-            .h1_allow_half_closed(c.cfg.half_closed);
+            .h1_allow_half_closed(c.cfg.half_closed)
+            .expect(exp);
         if c.cfg.signal {
             let sig2 = sig.clone();
             b = b.graceful_shutdown_signal(move || {
@@ -460,7 +535,7 @@ pub fn run_case(c: &Case) -> RunOut {
         let (wake, waker) = CountWake::pair();
         let mut run = Running { fut: Box::pin(async move { let r = fut.await; drop(service); r }), wake, waker };
 
-        let mut render = Render { reqs: &c.reqs, cur_chunked: false, part_sent: None };
+        let mut render = Render { reqs: &c.reqs, expect: (0..c.reqs.len()).map(|i| expect_of(&c, i).is_some()).collect(), cur_chunked: false, part_sent: None };
         let mut polls = vec![];
         let mut log_seen = 0usize;
         for r in &c.rounds {
@@ -526,19 +601,26 @@ pub fn wire_v(w: &Wire) -> V {
 }
 
 pub fn out_v(o: &RunOut) -> V {
+    // compared per poll: the FIRST call made on behalf of a request (`expect.call(req)` for a request
+    // with `Expect: 100-continue`, `service.call(req)` otherwise); the interim `100 Continue` is not
+    // part of the compared wire (the oracle looks at it)
+    let mut expected: Vec<usize> = vec![];
     V::L(o
         .polls
         .iter()
         .map(|p| {
-            let started: Vec<V> = p
-                .log
-                .iter()
-                .filter_map(|e| match e {
-                    LogEv::Start { i, .. } => Some(V::us(*i)),
-                    _ => None,
-                })
-                .collect();
-            V::T("p", vec![V::L(p.wire.iter().map(wire_v).collect()), V::L(started), V::n(p.result as u32)])
+            let mut started: Vec<V> = vec![];
+            for e in &p.log {
+                match e {
+                    LogEv::ExpStart { i } => {
+                        expected.push(*i);
+                        started.push(V::us(*i));
+                    }
+                    LogEv::Start { i, .. } if !expected.contains(i) => started.push(V::us(*i)),
+                    _ => {}
+                }
+            }
+            V::T("p", vec![V::L(p.wire.iter().filter(|w| !interim(w)).map(wire_v).collect()), V::L(started), V::n(p.result as u32)])
         })
         .collect())
 }
@@ -565,6 +647,7 @@ fn coq_hact(a: &HAct) -> String {
             format!("(HRespond {} {} {})", ["ONone", "OClose", "OKeepAlive"][(*copt).min(2) as usize], body, bpend)
         }
         HAct::Fail { status, body, bpend } => format!("(HFail {} {} {})", status, body, bpend),
+        HAct::Expect { pend, status, body, bpend } => format!("(XExpect {} {} {} {})", pend, status, body, bpend),
     }
 }
 fn coq_item(reqs: &[Req], it: &Item) -> String {
@@ -575,6 +658,16 @@ fn coq_item(reqs: &[Req], it: &Item) -> String {
         Item::End => "IEnd".into(),
         Item::Bad => "IBad".into(),
     }
+}
+/// the case with its expect scripts: `AV.H1.ConnExpect.xcase` (run by `run_C03` through `desugar`)
+pub fn coq_xcase(c: &Case, fx: Fixes) -> String {
+    let ex: Vec<String> = (0..c.hs.len())
+        .map(|i| match expect_of(c, i) {
+            Some((pend, status, body, bpend)) => format!("(XExpect {} {} {} {})", pend, status, body, bpend),
+            None => "XNone".to_string(),
+        })
+        .collect();
+    format!("(mkXCase {} {})", coq_case(c, fx), vh::coq_list(&ex, |e| e.clone()))
 }
 pub fn coq_case(c: &Case, fx: Fixes) -> String {
     let ka = match c.cfg.ka {
@@ -593,7 +686,8 @@ pub fn coq_case(c: &Case, fx: Fixes) -> String {
         vh::coq_bool(fx.close),
         vh::coq_bool(fx.sd)
     );
-    let hs = vh::coq_list(&c.hs, |h| vh::coq_list(h, coq_hact));
+    let plain: Vec<Vec<HAct>> = c.hs.iter().map(|h| h.iter().filter(|a| !matches!(a, HAct::Expect { .. })).cloned().collect()).collect();
+    let hs = vh::coq_list(&plain, |h| vh::coq_list(h, coq_hact));
     let rounds = vh::coq_list(&c.rounds, |r| {
         format!(
             "(mkRound {} {} {} {} {} {})",
@@ -723,6 +817,11 @@ pub fn handler_head(w: &Wire) -> bool {
     matches!(w, Wire::Head { status: 200 | 403, .. })
 }
 
+/// `HTTP/1.1 100 Continue`
+pub fn interim(w: &Wire) -> bool {
+    matches!(w, Wire::Head { status: 100, .. })
+}
+
 pub fn closing(w: &Wire) -> bool {
     match w {
         Wire::Head { status, v11, conn, .. } => matches!(*status, 400 | 408 | 431) || (*v11 && *conn == 1) || (!*v11 && *conn != 2),
@@ -770,11 +869,62 @@ pub fn oracle_c03(c: &Case, o: &RunOut) -> Result<(), String> {
                     }
                 }
                 LogEv::Done { .. } => {}
+                LogEv::ExpStart { i } => {
+                    if *i != next {
+                        return Err(format!("poll {k}: request {i} handed to the expect service, expected request {next} (ground-truth order)"));
+                    }
+                    if expect_rejected(c, *i) {
+                        // a rejected request is answered by the expect service's error and never dispatched
+                        next += 1;
+                    }
+                    if expect_of(c, *i).is_none() {
+                        return Err(format!("poll {k}: the expect service was called with request {i}, which carries no Expect header"));
+                    }
+                    if tr.head_round[*i].map_or(true, |h| h > k) {
+                        return Err(format!("poll {k}: request {i} handed to the expect service before its head was complete"));
+                    }
+                    if *i > 0 && c.reqs[*i - 1].body != 0 && tr.end_round[*i - 1].map_or(true, |e| e > k) {
+                        return Err(format!("poll {k}: request {i} handed to the expect service before the body of request {} reached its end", *i - 1));
+                    }
+                }
             }
         }
     }
+    // (6) a request the expect service turned down never reaches the application, and its error
+    //     response obeys the reuse rule: encoded while a content-length body is outstanding (not
+    //     drainable) => it announces close. (A rejected body that is drained to its exact end, or a
+    //     connection that closes, is judged by (1): its bytes never show up as a request, and by (5).)
+    for i in 0..c.reqs.len() {
+        if let Some((_, status, _, _)) = expect_of(c, i) {
+            if status == 0 {
+                continue;
+            }
+            if log.iter().any(|(_, e)| matches!(e, LogEv::Start { i: j, .. } if *j == i)) {
+                return Err(format!("request {i} was rejected by the expect service but dispatched to the application"));
+            }
+            let mine = o.polls.iter().enumerate().find_map(|(k, p)| p.wire.iter().find(|w| matches!(w, Wire::Head { status: st, .. } if *st == status)).map(|w| (k, w.clone())));
+            if let Some((k, w)) = mine {
+                let read_ended = c.rounds.iter().take(k + 1).any(|r| r.rd != 0);
+                if c.reqs[i].body == 1 && !read_ended && tr.end_round[i].map_or(true, |er| er > k) && !closing(&w) {
+                    return Err(format!("request {i} was rejected by the expect service (poll {k}) while its {} body bytes were outstanding, but the response does not announce close: {w:?}", c.reqs[i].blen));
+                }
+            }
+        }
+    }
+    // (7) a 400 answers a malformed head only: body bytes (chunk framing included) are never read as a head
+    for (k, p) in o.polls.iter().enumerate() {
+        if p.wire.iter().any(|w| matches!(w, Wire::Head { status: 400, .. })) && tr.bad_round.map_or(true, |b| b > k) && !c.rounds.iter().any(|r| r.arrive.iter().any(|i| matches!(i, Item::Part { .. }))) && !c.rounds.iter().take(k + 1).any(|r| r.rd != 0) {
+            return Err(format!("poll {k}: 400 Bad Request written although every head sent so far is well-formed (body bytes parsed as a request head)"));
+        }
+    }
+    // (8) `100 Continue` only on behalf of a request that asked for it and was accepted
+    let n100 = o.polls.iter().flat_map(|p| p.wire.iter()).filter(|w| interim(w)).count();
+    let accepted = (0..c.reqs.len()).filter(|i| matches!(expect_of(c, *i), Some((_, 0, _, _)))).count();
+    if n100 > accepted {
+        return Err(format!("{n100} interim 100 Continue responses written, {accepted} requests with an accepted expectation"));
+    }
     // (2) nothing after the first closing response head
-    let heads: Vec<(usize, Wire)> = o.polls.iter().enumerate().flat_map(|(k, p)| p.wire.iter().filter(|w| matches!(w, Wire::Head { .. })).map(move |w| (k, w.clone()))).collect();
+    let heads: Vec<(usize, Wire)> = o.polls.iter().enumerate().flat_map(|(k, p)| p.wire.iter().filter(|w| matches!(w, Wire::Head { .. }) && !interim(w)).map(move |w| (k, w.clone()))).collect();
     let first_close = heads.iter().position(|(_, w)| closing(w));
     if let Some(fc) = first_close {
         if heads.len() > fc + 1 {
@@ -832,6 +982,8 @@ pub fn oracle_c03(c: &Case, o: &RunOut) -> Result<(), String> {
 
 /// finding classes of a case (predicates on the input only)
 pub fn classes_c03(c: &Case) -> Vec<&'static str> {
+    let eff = Case { hs: eff_hs(c), ..c.clone() };
+    let c = &eff;
     let tr = truth(c);
     let mut out = vec![];
     let n = c.reqs.len();
@@ -1051,6 +1203,8 @@ pub fn classes_c06(c: &Case) -> Vec<&'static str> {
 /// context, no body, handler never forces close). The driver computes the Coq definition on every
 /// case and the two must agree (part of the compared value).
 pub fn coq_calm(c: &Case) -> bool {
+    let eff = Case { hs: eff_hs(c), ..c.clone() };
+    let c = &eff;
     let stream: Vec<&Item> = c.rounds.iter().flat_map(|r| r.arrive.iter()).collect();
     let ka_enabled = c.cfg.ka != 0;
     let good = |i: usize| {
